@@ -16,7 +16,7 @@ import re
 import sys
 from fractions import Fraction
 
-from .. import core
+from .. import core, history
 
 PID = "C20"
 THEOREMS = [
@@ -34,10 +34,22 @@ RULE = ("seeded generator over kinds {plot_diagrams, bottleneck_matching, wasser
         "lifetime, diagonal, legend, labels list / single string, xy_range, title} x input dtype {float64, float32, "
         "int64, int32, nested list; matching plots: integer-dtype diagrams with odd birth+death matched to the diagonal} x {the same array object at two positions of the list} x {two calls in a row on the same "
         "array objects, both judged on the caller's ORIGINAL data} x axes {other axes current, "
-        "given axes current, ax=None}; coordinates on a dyadic grid exact in float32 (exact family) or random "
+        "given axes current, ax=None}; call histories in one process (harness/history.py; argument arrays interned, so equal "
+        "diagrams of different steps are the same ndarray objects) x {overlay: 2-3 plot_diagrams calls on the SAME axes with "
+        "different value ranges (rescaled by 2^-3..2^6, shifted), most steps with infinite deaths, lifetime / xy_range / legend / "
+        "title / labels varying per step, the axes mode (other current / given current / ax=None) varying per step; the same "
+        "diagrams re-plotted on the same axes with other options; a rejected call (plot_only out of range, nothing finite) "
+        "followed by clean calls on the same axes; a diagram plot followed by bottleneck and wasserstein matching plots on the "
+        "same axes; several 2-D landscape plots on the same axes, title / labels given in some steps only; a fresh figure per "
+        "step with the same array objects passed to plot_diagrams, bottleneck_matching and wasserstein_matching}: every step is "
+        "judged by the property on the artists THAT call added (identified by object identity against a snapshot taken before "
+        "the call) and on the state of the axes after it - infinite deaths on a horizontal line present on the axes strictly "
+        "inside the limits in force after the call, limits containing the call's finite points, title / axis labels as "
+        "requested (an option not given leaves what an earlier call set), a legend created iff requested and listing at least "
+        "the call's own labels; coordinates on a dyadic grid exact in float32 (exact family) or random "
         "doubles (tolerance family); a case is non-trivial when at least two distinct finite points, an "
-        "infinite death, a matching segment or a landscape polyline is drawn, or an error branch is taken; "
-        "distinct = distinct JSON input")
+        "infinite death, a matching segment or a landscape polyline is drawn, or an error branch is taken; a history "
+        "is non-trivial when at least two of its steps are; distinct = distinct JSON input")
 TRUSTED_BASE = [
     "Coq 8.16.1 kernel, vm_compute (no native_compute)",
     "Q/Z/list theorems closed under the global context; the rotation lemma over R uses the stdlib axioms "
@@ -45,7 +57,9 @@ TRUSTED_BASE = [
     "hand-written model Model/SceneM.v of persim/visuals.py and persim/landscapes/visuals.py (2-D plots)",
     "matplotlib (Agg): Axes.lines / Axes.collections / get_offsets / get_xydata / get_xlim report what was drawn; "
     "the arguments of set_xlim / set_ylim are recorded by wrapping the two methods on the axes instance",
-    "harness: generator, float->exact-rational printer, artist collector, string-table encoding of labels",
+    "harness: generator, float->exact-rational printer, artist collector, string-table encoding of labels; call "
+    "histories (harness/history.py): the steps of a history that draw on the same axes are told apart by artist identity "
+    "(snapshot of Axes.collections / Axes.lines / the Legend object before each call)",
 ]
 ASSUMPTIONS = [
     "float32 rounding of the per-diagram copies and of the limit arithmetic is bounded by 1e-6 x scale, double "
@@ -63,6 +77,11 @@ ASSUMPTIONS = [
     "a single label string combined with plot_only (characters get indexed) is outside the model",
     "landscape polylines are compared with the landscape object's own critical pairs / values (their "
     "correctness is C03 / C08)",
+    "a call on axes that already hold a plot is judged on what it adds and on the limits / labels / title in force after it: "
+    "artists of earlier calls may stay as they are (their points need not lie inside the new limits), the legend of an "
+    "overlay must list at least the labels of the call that created it (and the infinity entry if that call drew infinite "
+    "deaths), any horizontal line on the axes strictly inside the limits counts as an infinity line; the model is compared "
+    "with the artists the call added",
 ]
 COQ_DEPS = ["Corr/SceneCorr.vo"]
 INF = float("inf")
@@ -229,6 +248,130 @@ def _gen_land(rng, kind):
     return c
 
 
+def _rescale(c, f, off):
+    """the same plot_diagrams case on another value range: v -> v * f + off (f a power of two, off an integer: the
+    dyadic grid stays exact in single precision)"""
+    c["dgms"] = [[[p[0] * f + off, p[1] if p[1] == "inf" else p[1] * f + off] for p in d] for d in c["dgms"]]
+    if c.get("xy_range"):
+        c["xy_range"] = [v * f + off for v in c["xy_range"]]
+    return c
+
+
+def _pd_step(rng, force_inf=False, allow_error=False):
+    """a plot_diagrams call drawn on the axes shared by the steps of a history"""
+    while True:
+        c = _gen_pd(rng)
+        if c["cls"] in ("pd/scale", "pd/doubles", "pd/int_array") or c.get("dtype") in ("list", "i64", "i32"):
+            continue
+        pl = _plotted(c)
+        if not allow_error and (pl is None or _nothing_to_plot(pl[0], c["xy_range"])):
+            continue
+        break
+    c.pop("second", None)
+    if force_inf and c["dgms"] and c["cls"] not in ("pd/all_empty",):
+        k = rng.randrange(len(c["dgms"]))
+        if c.get("alias"):
+            k = c["alias"][0][1]
+        c["dgms"][k] = c["dgms"][k] + [[_grid(rng, 1.0), "inf"]]
+        for a, b in c.get("alias") or []:
+            c["dgms"][a] = [list(p) for p in c["dgms"][b]]
+    _rescale(c, 2.0 ** rng.choice([-3, -1, 0, 0, 1, 2, 4, 6]), float(rng.choice([0, 0, 0, 16, -64, 512])))
+    c["shared"] = True
+    c["cls"] = "step:" + c["cls"]
+    return c
+
+
+def _match_step(rng, kind, shared):
+    c = _gen_match(rng, kind)
+    c["shared"] = bool(shared)
+    c["cls"] = "step:" + c["cls"]
+    return c
+
+
+def _land_step(rng, kind):
+    c = _gen_land(rng, kind)
+    c["shared"] = True
+    c["cls"] = "step:" + c["cls"]
+    return c
+
+
+def _histories(rng, n):
+    """Call histories (harness/history.py).  "shared": True steps draw on ONE pair of axes kept for the whole history
+    (overlays); the other steps get a fresh figure each.  Argument arrays are interned, so equal diagrams of different
+    steps are the same ndarray objects.  Every step must satisfy the property on the artists it added."""
+    hs = []
+    for _ in range(n):
+        kind = rng.choice(["overlay", "overlay", "overlay", "overlay", "replot", "error_then_clean", "pd_then_matching",
+                           "matchings", "landscapes", "landscapes", "shared_arrays"])
+        steps = []
+        if kind == "overlay":
+            # diagrams of different value ranges drawn onto the same axes, most of them with infinite deaths
+            for _k in range(rng.choice([2, 2, 3])):
+                steps.append(_pd_step(rng, force_inf=rng.random() < 0.8))
+        elif kind == "replot":
+            # the same diagrams (same objects) drawn again on the same axes with other options
+            a = _pd_step(rng, force_inf=rng.random() < 0.7)
+            a["dtype"] = rng.choice(["f32", "f32", "f64"])
+            b = dict(a, lifetime=not a["lifetime"] if rng.random() < 0.6 else a["lifetime"],
+                     legend=rng.random() < 0.6, diagonal=rng.random() < 0.7, title=rng.choice([None, "A title", "H", ""]),
+                     axes=rng.choice(["other", "given", "gca"]))
+            vals = [x for d in a["dgms"] for p in d for x in p if x != "inf"]
+            if vals and rng.random() < 0.5:
+                lo, hi = min(vals), max(vals)
+                w = (hi - lo) or 1.0
+                b["xy_range"] = [lo - w / 4, hi + w / 2, lo - w / 4, hi + w]
+            steps = [a, b]
+            if rng.random() < 0.4:
+                steps.append(dict(a, axes=rng.choice(["other", "given", "gca"])))
+        elif kind == "error_then_clean":
+            # a rejected call (index out of range / nothing finite to derive a range from), then clean calls
+            while True:
+                e = _pd_step(rng, allow_error=True)
+                if _plotted(e) is None or _nothing_to_plot(_plotted(e)[0], e["xy_range"]):
+                    break
+            steps = [_pd_step(rng, force_inf=True)] if rng.random() < 0.5 else []
+            steps += [e, _pd_step(rng, force_inf=rng.random() < 0.7), _pd_step(rng, force_inf=rng.random() < 0.7)]
+        elif kind == "pd_then_matching":
+            m = _match_step(rng, rng.choice(["bn", "ws"]), True)
+            a = _pd_step(rng, force_inf=rng.random() < 0.6)
+            if rng.random() < 0.5 and m["d1"] and m["dtype"] in ("f64", "f32"):
+                # the diagram plotted first is one of the two that get matched (same object)
+                a = dict(a, dgms=[[list(p) for p in m["d1"]]], dtype=m["dtype"], plot_only=None, labels=None, alias=None,
+                         single=rng.random() < 0.5, xy_range=None)
+                a.pop("int_arrays", None)
+            steps = [a, m]
+            if rng.random() < 0.4:
+                steps.append(_pd_step(rng, force_inf=True))
+        elif kind == "matchings":
+            # both matchings of the same two diagrams (same objects), on the same axes or on fresh ones
+            sh = rng.random() < 0.6
+            m = _match_step(rng, "bn", sh)
+            m2 = dict(m, kind="ws", cls=m["cls"].replace("bn/", "ws/"), axes=rng.choice(["other", "given", "gca"]))
+            steps = [m, m2] if rng.random() < 0.5 else [m2, m]
+            if rng.random() < 0.4:
+                steps.append(dict(_match_step(rng, rng.choice(["bn", "ws"]), sh), d1=m["d2"], dtype=m["dtype"], same_object=False))
+        elif kind == "landscapes":
+            for _k in range(rng.choice([2, 2, 3])):
+                steps.append(_land_step(rng, rng.choice(["le", "la"])))
+        else:
+            # a pairwise comparison loop: fresh figures, the same array objects in every call
+            m = _match_step(rng, "bn", False)
+            dt = rng.choice(["f32", "f32", "f64"])
+            m["dtype"] = dt if m["dtype"] in ("f64", "f32") else m["dtype"]
+            steps = []
+            if m["d1"] and m["d2"] and m["dtype"] in ("f64", "f32"):
+                a = _pd_step(rng)
+                a = dict(a, dgms=[[list(p) for p in m["d1"]], [list(p) for p in m["d2"]]], dtype=m["dtype"], plot_only=None,
+                         labels=None, alias=None, single=False, xy_range=None, shared=False, lifetime=rng.random() < 0.7)
+                a.pop("int_arrays", None)
+                steps.append(a)
+            steps += [m, dict(m, kind="ws", cls=m["cls"].replace("bn/", "ws/"))]
+            if rng.random() < 0.5:
+                steps.append(dict(m, d1=m["d2"], d2=m["d1"], same_object=False))
+        hs.append(history.make(kind, steps))
+    return hs
+
+
 def generate(rng, tier):
     mult = 1 if tier == "quick" else 20
     cases = []
@@ -244,7 +387,7 @@ def generate(rng, tier):
         cases.append(_gen_land(rng, "la"))
     for _ in range(1 if tier == "quick" else 4):
         cases.append({"kind": "l3", "cls": "l3", "dgm": [[0.0, 2.0], [1.0, 4.0]], "approx": bool(rng.random() < 0.5)})
-    return cases
+    return cases + _histories(rng, 36 if tier == "quick" else 600)
 
 
 def search_generate(rng, n):
@@ -295,6 +438,24 @@ def corpus():
         # integer-dtype diagrams: the foot of (10, 11) is (10.5, 10.5), not a truncated integer
         {"kind": "bn", "d1": [[10, 11]], "d2": [[20, 23]], "labels": ["dgm1", "dgm2"], "axes": "other", "dtype": "i64"},
         {"kind": "ws", "d1": [[10, 11], [0, 3]], "d2": [[20, 21]], "labels": ["dgm1", "dgm2"], "axes": "other", "dtype": "i32"},
+        # overlays: a second diagram plot of another value range on axes that already show one, both with infinite deaths
+        history.make("overlay", [
+            m(dgms=[[[0, 0.5], [0.125, 0.875], [0, "inf"]], [[0.25, 0.625]]], labels=["alpha", "beta"], shared=True),
+            m(dgms=[[[0, 4], [1, 9], [0, "inf"]], [[2, 6.5], [3, "inf"]]], labels=["gamma", "dgmA"], shared=True)]),
+        history.make("overlay", [
+            m(dgms=[[[0, 4], [1, 9], [0, "inf"]]], shared=True, lifetime=True, title="A title"),
+            m(dgms=[[[0, 0.5], [0.125, "inf"]]], shared=True, axes="gca", legend=False),
+            m(dgms=[[[0, 0.5], [0.125, "inf"]]], shared=True, xy_range=[-1.0, 3.0, -1.0, 2.0], lifetime=True, title="H")]),
+        # a diagram plot, then the matching plots of the same diagrams on the same axes
+        history.make("pd_then_matching", [
+            m(dgms=[[[0, 1], [2, 5], [1, "inf"]]], shared=True),
+            {"kind": "bn", "d1": [[0, 1], [2, 5]], "d2": [[0, 1.25], [6, 9]], "labels": ["dgm1", "dgm2"], "axes": "other", "shared": True},
+            {"kind": "ws", "d1": [[0, 1], [2, 5]], "d2": [[0, 1.25], [6, 9]], "labels": ["dgmA", "dgmB"], "axes": "gca", "shared": True}]),
+        # two landscapes compared on one axes; title / labels only in the first call
+        history.make("landscapes", [
+            {"kind": "le", "dgm": [[0, 4], [1, 3]], "depth_range": None, "title": "A title", "labels": ["x axis", "y axis"],
+             "axes": "other", "shared": True},
+            {"kind": "le", "dgm": [[2, 6]], "depth_range": None, "title": None, "labels": None, "axes": "other", "shared": True}]),
     ] + _corpus_files()
 
 
@@ -316,9 +477,16 @@ def _arr(np, d, as_int=False, dtype="f64"):
     return a
 
 
-def _build_arrs(np, c):
+def _get_arr(np, memo, d, as_int=False, dtype="f64"):
+    """the caller's array for diagram ``d``; inside a history equal diagrams are THE SAME object"""
+    if memo is None:
+        return _arr(np, d, as_int, dtype)
+    return history.intern(memo, ["arr", d, bool(as_int), dtype], lambda: _arr(np, d, as_int, dtype))
+
+
+def _build_arrs(np, c, memo=None):
     """the caller's arrays of a plot_diagrams case: input dtype class, and the SAME object at several positions"""
-    arrs = [_arr(np, d, c.get("int_arrays", False), c.get("dtype", "f64")) for d in c["dgms"]]
+    arrs = [_get_arr(np, memo, d, c.get("int_arrays", False), c.get("dtype", "f64")) for d in c["dgms"]]
     for k, j in c.get("alias") or []:
         arrs[k] = arrs[j]
     return arrs
@@ -344,7 +512,34 @@ def _collect_axes(ax):
     }
 
 
-def _one(c, arrs=None):
+def _wrap_limits(ax, st):
+    """records the arguments of the first set_xlim / set_ylim call persim itself makes during the current call"""
+    for name in ("set_xlim", "set_ylim"):
+        def wrap(orig, name=name):
+            def w(*a, **k):
+                # only calls made by persim itself (matplotlib re-enters these methods when autoscaling)
+                if "persim" in sys._getframe(1).f_code.co_filename and name not in st["req"]:
+                    v = a[0] if len(a) == 1 else list(a)
+                    st["req"][name] = [float(x) for x in v]
+                return orig(*a, **k)
+            return w
+        setattr(ax, name, wrap(getattr(ax, name)))
+
+
+def _new_figure():
+    import matplotlib.pyplot as plt
+    fig, (ax_given, ax_other) = plt.subplots(1, 2)
+    st = {"fig": fig, "given": ax_given, "other": ax_other, "req": {}, "lifetime_calls": 0}
+    _wrap_limits(ax_given, st)
+    return st
+
+
+def _artists(ax):
+    import matplotlib.collections as mc
+    return [c for c in ax.collections if isinstance(c, mc.PathCollection)], list(ax.lines)
+
+
+def _one(c, arrs=None, memo=None):
     import numpy as np
     import matplotlib.pyplot as plt
     import persim
@@ -360,31 +555,38 @@ def _one(c, arrs=None):
             return {"l3": type(r).__name__, "n_axes": len(getattr(r, "axes", []))}
         finally:
             plt.close("all")
-    fig, (ax_given, ax_other) = plt.subplots(1, 2)
+    shared = bool(c.get("shared")) and memo is not None
+    if shared:
+        # the axes of the history: they keep whatever the earlier steps drew
+        if "__fig" not in memo:
+            memo["__fig"] = _new_figure()
+        st = memo["__fig"]
+    else:
+        st = _new_figure()
+    fig, ax_given, ax_other = st["fig"], st["given"], st["other"]
+    st["req"] = {}
     out = {}
     try:
         mode = c.get("axes", "other")
         plt.sca(ax_other if mode == "other" else ax_given)
         ax_arg = None if mode == "gca" else ax_given
-        req = {}
-        for name in ("set_xlim", "set_ylim"):
-            def wrap(orig, name=name):
-                def w(*a, **k):
-                    # only calls made by persim itself (matplotlib re-enters these methods when autoscaling)
-                    if "persim" in sys._getframe(1).f_code.co_filename and name not in req:
-                        v = a[0] if len(a) == 1 else list(a)
-                        req[name] = [float(x) for x in v]
-                    return orig(*a, **k)
-                return w
-            setattr(ax_given, name, wrap(getattr(ax_given, name)))
+        # snapshot: what is on the two axes before the call (the objects are kept alive, so identities stay unique)
+        before = _artists(ax_given), _artists(ax_other), ax_given.get_legend()
+        seen = {id(a) for grp in before[:2] for lst in grp for a in lst}
+        if shared:
+            out["prev"] = {"title": ax_given.get_title(), "xlabel": ax_given.get_xlabel(), "ylabel": ax_given.get_ylabel(),
+                           "n_scatter": len(before[0][0]), "n_lines": len(before[0][1])}
         if kind == "pd":
             if arrs is None:
-                arrs = _build_arrs(np, c)
+                arrs = _build_arrs(np, c, memo)
             V.plot_diagrams(arrs[0] if c["single"] else arrs, plot_only=c["plot_only"], title=c["title"],
                             xy_range=c["xy_range"], labels=c["labels"], diagonal=c["diagonal"],
                             lifetime=c["lifetime"], legend=c["legend"], show=False, ax=ax_arg)
+            if c["lifetime"]:
+                st["lifetime_calls"] += 1
         elif kind in ("bn", "ws"):
-            d1, d2 = _arr(np, c["d1"], dtype=c.get("dtype", "f64")), _arr(np, c["d2"], dtype=c.get("dtype", "f64"))
+            d1 = _get_arr(np, memo, c["d1"], dtype=c.get("dtype", "f64"))
+            d2 = _get_arr(np, memo, c["d2"], dtype=c.get("dtype", "f64"))
             if c.get("same_object"):
                 d2 = d1
             if c.get("matching") is not None:
@@ -398,7 +600,7 @@ def _one(c, arrs=None):
             fn(d1, d2, np.asarray(M), labels=list(c["labels"]), ax=ax_arg)
         elif kind in ("le", "la"):
             from persim.landscapes import PersLandscapeExact, PersLandscapeApprox, plot_landscape_simple
-            dg = [_arr(np, c["dgm"])]
+            dg = [_get_arr(np, memo, c["dgm"])]
             dr = c["depth_range"]
             if kind == "le":
                 L = PersLandscapeExact(dgms=dg, hom_deg=0)
@@ -414,7 +616,16 @@ def _one(c, arrs=None):
             out["returns_axes"] = bool(r is ax_given)
         out["given"] = _collect_axes(ax_given)
         out["other"] = _collect_axes(ax_other)
-        out["requested"] = req
+        out["requested"] = dict(st["req"])
+        if shared:
+            (gc, gl), (oc, ol) = _artists(ax_given), _artists(ax_other)
+            leg = ax_given.get_legend()
+            out["prev"]["lifetime_calls"] = st["lifetime_calls"]
+            out["new"] = {"scatter": [k for k, a in enumerate(gc) if id(a) not in seen],
+                          "lines": [k for k, a in enumerate(gl) if id(a) not in seen],
+                          "other_scatter": [k for k, a in enumerate(oc) if id(a) not in seen],
+                          "other_lines": [k for k, a in enumerate(ol) if id(a) not in seen],
+                          "legend": bool(leg is not None and leg is not before[2])}
         return out
     except Exception as e:
         res = {"error": type(e).__name__, "msg": str(e)[:200]}
@@ -422,8 +633,24 @@ def _one(c, arrs=None):
             res["matching"] = out["matching"]
         return res
     finally:
-        plt.close(fig)
-        plt.close("all")
+        if not shared:
+            plt.close(fig)
+            plt.close("all")
+
+
+def impl_call(c, memo):
+    """one step of a call history (also: a single case, with an empty memo)"""
+    if c["kind"] != "pd":
+        return _one(c, None, memo)
+    import numpy as np
+    try:
+        arrs = _build_arrs(np, c, memo)
+    except Exception as e:
+        return {"error": type(e).__name__, "msg": str(e)[:200]}
+    o = _one(c, arrs, memo)
+    if c.get("second") and "error" not in o:
+        o["second"] = _one(_second(c), arrs, memo)
+    return o
 
 
 def _second(c):
@@ -434,18 +661,16 @@ def _second(c):
 
 def _run_case(c):
     """one call, or - for plot_diagrams cases with "second" - two calls in a row on the SAME array objects (each on
-    its own fresh figure); the inputs a case describes are the caller's ORIGINAL data for both calls"""
-    if c["kind"] != "pd":
-        return _one(c)
-    import numpy as np
+    its own fresh figure); the inputs a case describes are the caller's ORIGINAL data for both calls.  A history
+    (harness/history.py) runs its steps one after the other with interned arrays and, for the steps marked "shared",
+    on one and the same pair of axes."""
+    import matplotlib.pyplot as plt
     try:
-        arrs = _build_arrs(np, c)
-    except Exception as e:
-        return {"error": type(e).__name__, "msg": str(e)[:200]}
-    o = _one(c, arrs)
-    if c.get("second") and "error" not in o:
-        o["second"] = _one(_second(c), arrs)
-    return o
+        if history.is_hist(c):
+            return history.run(c, impl_call)
+        return impl_call(c, {} if c.get("shared") else None)
+    finally:
+        plt.close("all")
 
 
 def impl_run(cases):
@@ -509,17 +734,22 @@ def _clean_other(o, mode):
 
 def _pred_diagram_scene(c, o, dg, labels, lifetime, xy_range, title, legend, tp):
     g = o["given"]
-    if len(g["scatter"]) != len(dg):
-        return False, "collections: %d scatter collections for %d plotted diagrams" % (len(g["scatter"]), len(dg))
+    new, prev = o.get("new"), o.get("prev") or {}
+    # on axes that already held a plot: the collections THIS call added (by identity); any line on the axes may
+    # serve as the infinity line
+    scatter = g["scatter"] if new is None else [g["scatter"][k] for k in new["scatter"]]
+    if len(scatter) != len(dg):
+        return False, "collections: %d scatter collections %sfor %d plotted diagrams" % (
+            len(scatter), "" if new is None else "added ", len(dg))
     has_inf = any(p[1] == "inf" for d in dg for p in d)
     (xl, xu), (yl, yu) = g["xlim"], g["ylim"]
     horiz = [l for l in g["lines"] if len(l["xy"]) == 2 and abs(l["xy"][0][1] - l["xy"][1][1]) <= tp]
-    if lifetime:             # one horizontal line at 0 is the horizon, not the infinity line
-        zero = [l for l in horiz if abs(l["xy"][0][1]) <= tp]
-        if zero:
-            horiz = [l for l in horiz if l is not zero[0]]
+    # one horizontal line at 0 per lifetime-mode call is a horizon, not an infinity line
+    n_horizon = prev.get("lifetime_calls", 1 if lifetime else 0)
+    for l in [l for l in horiz if abs(l["xy"][0][1]) <= tp][:n_horizon]:
+        horiz = [h for h in horiz if h is not l]
     inf_levels = [l["xy"][0][1] for l in horiz if yl < l["xy"][0][1] < yu]
-    for d, col, lab in zip(dg, g["scatter"], labels):
+    for d, col, lab in zip(dg, scatter, labels):
         if col["label"] != lab:
             return False, "labels: collection labelled %r, requested %r" % (col["label"], lab)
         if len(col["xy"]) != len(d):
@@ -545,16 +775,25 @@ def _pred_diagram_scene(c, o, dg, labels, lifetime, xy_range, title, legend, tp)
             return False, "limits: xlim %r is not the requested %r" % (g["xlim"], xy_range[:2])
         if not lifetime and (abs(yl - xy_range[2]) > tp or abs(yu - xy_range[3]) > tp):
             return False, "limits: ylim %r is not the requested %r" % (g["ylim"], xy_range[2:])
-    if g["title"] != (title or ""):
+    want_title = title if title is not None else prev.get("title", "")      # no title requested: an earlier one stays
+    if g["title"] != want_title:
         return False, "title: %r, requested %r" % (g["title"], title)
     if dg and (g["xlabel"] != "Birth" or g["ylabel"] != ("Lifetime" if lifetime else "Death")):
         return False, "axis-labels: %r / %r" % (g["xlabel"], g["ylabel"])
-    if (g["legend"] is not None) != bool(legend):
-        return False, "legend: present=%r, requested %r" % (g["legend"] is not None, legend)
+    made = (g["legend"] is not None) if new is None else new["legend"]      # a legend (re)built by this call
+    if made != bool(legend):
+        return False, "legend: %s=%r, requested %r" % ("present" if new is None else "created by this call", made, legend)
     if legend:
         want = sorted([l for l in labels if not l.startswith("_")] + (["$\\infty$"] if has_inf else []))
-        if sorted(g["legend"]) != want:
-            return False, "legend: entries %r, expected %r" % (sorted(g["legend"]), want)
+        if new is None:
+            if sorted(g["legend"]) != want:
+                return False, "legend: entries %r, expected %r" % (sorted(g["legend"]), want)
+        else:
+            have = list(g["legend"] or [])
+            for w in want:          # the entries of earlier calls on these axes may be listed as well
+                if w not in have:
+                    return False, "legend: entries %r do not list %r of this call" % (sorted(g["legend"] or []), want)
+                have.remove(w)
     return True, ""
 
 
@@ -591,7 +830,15 @@ def _pred_pd(c, o, tp, mode):
     return _clean_other(o, mode)
 
 
+def _new_lines(o):
+    """the lines a call added to the given axes (all of them on fresh axes)"""
+    g = o["given"]
+    return list(g["lines"]) if o.get("new") is None else [g["lines"][k] for k in o["new"]["lines"]]
+
+
 def predicate(c, o):
+    if history.is_hist(c):
+        return history.predicate(c, o, predicate)
     kind = c["kind"]
     if kind == "l3":
         if "error" in o or o.get("l3") != "Figure":
@@ -627,7 +874,7 @@ def predicate(c, o):
                 want.append(([d1[i], _foot(d1[i])], cost))
             elif j >= 0:
                 want.append(([d2[j], _foot(d2[j])], cost))
-        lines = list(o["given"]["lines"])
+        lines = _new_lines(o)
         used = [False] * len(lines)
         styles = []
         for seg, cost in want:
@@ -688,14 +935,16 @@ def predicate(c, o):
         dr = c["depth_range"] or list(range(len(funcs)))
         want = [(k, f) for k, f in enumerate(funcs) if k in dr]
         g = o["given"]
-        if len(g["lines"]) != len(want):
-            return False, "polylines: %d lines for %d selected depths" % (len(g["lines"]), len(want))
-        for (k, f), l in zip(want, g["lines"]):
+        prev = o.get("prev") or {}
+        drawn = _new_lines(o)
+        if len(drawn) != len(want):
+            return False, "polylines: %d lines for %d selected depths" % (len(drawn), len(want))
+        for (k, f), l in zip(want, drawn):
             if len(f) != len(l["xy"]) or any(abs(p[0] - q[0]) > ts or abs(p[1] - q[1]) > ts for p, q in zip(f, l["xy"])):
                 return False, "polylines: depth %d drawn through %r, landscape is %r" % (k, l["xy"][:4], f[:4])
-        if g["title"] != (c["title"] or ""):
+        if g["title"] != (c["title"] or prev.get("title", "")):      # nothing requested: what an earlier call set stays
             return False, "title: %r, requested %r" % (g["title"], c["title"])
-        wl = c["labels"] or ["", ""]
+        wl = c["labels"] or [prev.get("xlabel", ""), prev.get("ylabel", "")]
         if g["xlabel"] != wl[0] or g["ylabel"] != wl[1]:
             return False, "axis-labels: %r / %r, requested %r" % (g["xlabel"], g["ylabel"], wl)
         return _clean_other(o, mode)
@@ -703,16 +952,21 @@ def predicate(c, o):
 
 
 def nontrivial(c, o):
+    if history.is_hist(c):
+        return history.nontrivial(c, o, nontrivial)
     if "error" in o:
         return True
     k = c["kind"]
     if k == "pd":
-        pts = {(x, y) for col in o["given"]["scatter"] for x, y in col["xy"]}
+        sc = o["given"]["scatter"]
+        if o.get("new") is not None:
+            sc = [sc[i] for i in o["new"]["scatter"]]
+        pts = {(x, y) for col in sc for x, y in col["xy"]}
         return len(pts) >= 2 or any(p[1] == "inf" for d in c["dgms"] for p in d)
     if k in ("bn", "ws"):
         return any(i != -1 or j != -1 for i, j, _ in o.get("matching", []))
     if k in ("le", "la"):
-        return len(o["given"]["lines"]) >= 1
+        return len(_new_lines(o)) >= 1
     return True
 
 
@@ -783,13 +1037,25 @@ def _ires(c, o, table, land=False):
         return {"ValueError": "IValueError", "IndexError": "IIndexError"}.get(o["error"], "IOther")
     g, ot, req = o["given"], o["other"], o.get("requested", {})
     mode = c.get("axes", "other")
-    scat = core.coq_list(["(%s, %s)" % (_label(s["label"], table), _pts(s["xy"])) for s in g["scatter"]])
+    new, prev = o.get("new"), o.get("prev") or {}
+    g_scatter, g_lines, g_title, g_legend = g["scatter"], g["lines"], g["title"], g["legend"] is not None
+    xl = g["xlabel"]
+    yl = g["ylabel"]
+    if new is not None:
+        # a step of a history on axes that already held a plot: the model is compared with what THIS call added
+        # (artists by identity, a legend object it created, a title / axis labels it changed)
+        g_scatter = [g["scatter"][k] for k in new["scatter"]]
+        g_lines = [g["lines"][k] for k in new["lines"]]
+        g_legend = new["legend"]
+        if not c.get("title") and g_title == prev.get("title", ""):
+            g_title = ""
+        if land and not c.get("labels") and (xl, yl) == (prev.get("xlabel", ""), prev.get("ylabel", "")):
+            xl = yl = ""
+    scat = core.coq_list(["(%s, %s)" % (_label(s["label"], table), _pts(s["xy"])) for s in g_scatter])
     other_lines = ot["lines"]
     rest = ot["rest"] + len(ot["scatter"]) + (1 if ot["legend"] is not None else 0) + (1 if ot["title"] else 0)
     xlim = req.get("set_xlim", g["xlim"])
     ylim = req.get("set_ylim", g["ylim"])
-    xl = g["xlabel"]
-    yl = g["ylabel"]
     if land:
         lab = c["labels"] or []
         xlc = "None" if xl == "" else "(Some (XUser %s))" % _nat(0 if lab and xl == lab[0] else 999)
@@ -797,10 +1063,10 @@ def _ires(c, o, table, land=False):
     else:
         xlc = "None" if xl == "" else ("(Some Birth)" if xl == "Birth" else "(Some (XUser 999%nat))")
         ylc = "None" if yl == "" else {"Death": "(Some Death)", "Lifetime": "(Some Lifetime)"}.get(yl, "(Some (YUser 999%nat))")
-    title = "None" if g["title"] == "" else "(Some %s)" % _nat(table.index(g["title"]) if g["title"] in table else 999)
+    title = "None" if g_title == "" else "(Some %s)" % _nat(table.index(g_title) if g_title in table else 999)
     return "(IOk (mkI %s %s %s %s %s %s %s %s %s %s))" % (
-        scat, core.coq_list([_iline(l) for l in g["lines"]]), core.coq_list([_iline(l) for l in other_lines]),
-        _nat(rest), _pt(xlim), _pt(ylim), xlc, ylc, title, "true" if g["legend"] is not None else "false")
+        scat, core.coq_list([_iline(l) for l in g_lines]), core.coq_list([_iline(l) for l in other_lines]),
+        _nat(rest), _pt(xlim), _pt(ylim), xlc, ylc, title, "true" if g_legend else "false")
 
 
 def _coq_dgm(d):
@@ -880,16 +1146,28 @@ def coq_judge(cases, outs, results):
         if c.get("dtype") == "list" and "error" in o:
             verdicts[i] = "skip:nested-list diagrams rejected by the code"
             continue
-        calls = [(c, o, "")]
-        if c["kind"] == "pd" and c.get("second") and "error" not in o:
-            calls.append((_second(c), o.get("second") or {"error": "missing"}, "second call: "))
+        if history.is_hist(c):
+            # every step is run through the model as well (steps on shared axes: the artists the step added)
+            houts = o.get("hist") or []
+            if len(houts) != len(c["seq"]):
+                verdicts[i] = "disagree:history: harness error"
+                continue
+            steps = [(s, so, "step %d: " % k) for k, (s, so) in enumerate(zip(c["seq"], houts))
+                     if not s.get("fault") and not (s.get("dtype") == "list" and "error" in so)]
+        else:
+            steps = [(c, o, "")]
+        calls = []
+        for cc, oo, tag in steps:
+            calls.append((cc, oo, tag))
+            if cc["kind"] == "pd" and cc.get("second") and "error" not in oo:
+                calls.append((_second(cc), oo.get("second") or {"error": "missing"}, tag + "second call: "))
         try:
             ts = [(_term(cc, oo), tag) for cc, oo, tag in calls]
         except Exception as e:  # a label / title the case did not ask for, ...
             verdicts[i] = "disagree:cannot encode the drawn scene (%r)" % (e,)
             continue
         if any(t is None for t, _ in ts):
-            if c["kind"] != "l3":
+            if c.get("kind") != "l3":
                 verdicts[i] = "disagree:no scene to compare (%s)" % (o.get("error"),)
             continue
         verdicts[i] = "agree"
@@ -907,6 +1185,15 @@ def coq_judge(cases, outs, results):
 # ------------------------------------------------------------------------------ shrinking
 
 def shrink_candidates(c):
+    if history.is_hist(c):
+        yield from history.shrink(c)
+        # the same history with one step made smaller
+        for i, st in enumerate(c["seq"]):
+            for n, st2 in enumerate(shrink_candidates(st)):
+                if n >= 12:
+                    break
+                d = dict(c); d["seq"] = c["seq"][:i] + [st2] + c["seq"][i + 1:]; yield d
+        return
     k = c["kind"]
     if k == "pd":
         for key in ("second", "alias"):
